@@ -608,8 +608,8 @@ V("ixmap-benign-rename", ["C01"], ["INDEX-MAPS"], "benign", (IX, "    for c1, p1
 
 V("sig-libraries-dropped", ["C13"], ["SIG-COMPLETE"], "fire", (JIT, "            + str(list(cffi_libraries))\n            + str(sysconfig.get_config_var(\"CFLAGS\"))", "            + str(sysconfig.get_config_var(\"CFLAGS\"))"))
 
-# ---- create_quadrature_points_and_weights interpreted (OPT-GATE quadrature matrix) ------------------
-OG = ["OPT-GATE"]
+# ---- create_quadrature_points_and_weights interpreted (QUAD-MATRIX) ------------------
+OG = ["QUAD-MATRIX"]
 V("qm-quad-three-factors", ["C10"], OG, "fire", (RU, "                    create_quadrature(\"interval\", degree, rule, elements) for _ in range(2)", "                    create_quadrature(\"interval\", degree, rule, elements) for _ in range(3)"))
 V("qm-weights-from-points", ["C10"], OG, "fire", (RU, "[np.prod(p) for p in itertools.product(*[f[1] for f in tensor_factors[cell_name]])]", "[np.prod(p) for p in itertools.product(*[f[1] for f in tensor_factors[cell_name][:1]])]"))
 V("qm-factor-degree", ["C10"], OG, "fire", (RU, "                    create_quadrature(\"interval\", degree, rule, elements) for _ in range(3)", "                    create_quadrature(\"interval\", degree + 1, rule, elements) for _ in range(3)"))
